@@ -180,9 +180,150 @@ theorem at_fix_not_reported_rpm (p : Pkg) (v : Vuln) (hF : v.fixed ≠ [])
     vulnerablePhoton p v = .ok false ∧ vulnerableRhcc p v = .ok false := by
   simp [vulnerableAws, vulnerableOracle, vulnerableSuse, vulnerablePhoton, vulnerableRhcc, rpmBelow_fix hF, heq]
 
+/-! ### go-deb-version -/
+
+/-- dpkg's order on parsed versions (epoch, then upstream version, then
+    revision, each as padded sequence of (non-digit string, number) pairs) is a
+    total preorder. -/
+theorem deb_cmp_totalPre : TotalPre VerDeb.debOrd := VerDeb.debOrd_totalPre
+
+/-- Whenever go-deb-version's `Compare` returns, it returns dpkg's order. -/
+theorem deb_compare_sound (v1 v2 : VerDeb.Version) (o : Ordering) (h : VerDeb.compare v1 v2 = some o) :
+    o = VerDeb.debOrd v1 v2 := VerDeb.compare_some h
+
+/-- `Compare` does not return exactly when, the epochs being equal, the
+    upstream versions (or, these being identical, the revisions) are different
+    strings that dpkg's order does not separate. -/
+theorem deb_compare_hang_iff (v1 v2 : VerDeb.Version) :
+    VerDeb.compare v1 v2 = none ↔
+      v1.epoch = v2.epoch ∧
+      ((v1.upstream ≠ v2.upstream ∧ VerDeb.partOrd v1.upstream v2.upstream = .eq) ∨
+       (v1.upstream = v2.upstream ∧ v1.revision ≠ v2.revision ∧
+        VerDeb.partOrd v1.revision v2.revision = .eq)) := VerDeb.compare_none_iff v1 v2
+
+/-- The inner `compareString` loop (which also has no exit but a difference)
+    does terminate: `order` is injective and never 0, so different strings differ
+    at some position. -/
+theorem deb_compareString_eq_iff (a b : Str) : VerDeb.compareString a b = .eq ↔ a = b :=
+  VerDeb.compareString_eq
+
+/-! ### debian and ubuntu -/
+
+/-- debian, ubuntu: an advisory without fixed version is reported (no fix yet). -/
+theorem no_fix_debian (p : Pkg) (v : Vuln) (hF : v.fixed = []) : vulnerableDebian p v = .ok true := by
+  simp [vulnerableDebian, hF]
+
+theorem no_fix_ubuntu (p : Pkg) (v : Vuln) (hF : v.fixed = []) : vulnerableUbuntu p v = .ok true := by
+  simp [vulnerableUbuntu, hF]
+
+/-- debian: fixed version `"0"` is the tracker's "not affected": never reported. -/
+theorem sentinel_not_reported_debian (p : Pkg) (v : Vuln) (hF : v.fixed = ['0']) :
+    vulnerableDebian p v = .ok false := by
+  simp [vulnerableDebian, hF]
+
+/-- ubuntu: a fix that prints as `"0"` is reported for every parsable package
+    version (the code's choice; see design/C03.md). -/
+theorem zero_fix_reported_ubuntu (p : Pkg) (v : Vuln) (v1 v2 : VerDeb.Version) (hF : v.fixed ≠ [])
+    (h1 : VerDeb.newVersion p.version = some v1) (h2 : VerDeb.newVersion v.fixed = some v2)
+    (hz : v2.toStr = ['0']) : vulnerableUbuntu p v = .ok true := by
+  simp [vulnerableUbuntu, hF, h1, h2, hz]
+
+/-- debian, ubuntu: a version that does not parse is an error, not a verdict. -/
+theorem unparsable_is_error_debian (p : Pkg) (v : Vuln) (hF : v.fixed ≠ []) (hF0 : v.fixed ≠ ['0'])
+    (h : VerDeb.newVersion p.version = none ∨ VerDeb.newVersion v.fixed = none) :
+    vulnerableDebian p v = .err := by
+  unfold vulnerableDebian
+  simp only [hF, hF0, if_false]
+  rcases h with h | h
+  · simp [h]
+  · cases VerDeb.newVersion p.version <;> simp [h]
+
+/-
+  Full statement (FALSE of the unchanged code, see the counterexample below):
+    ∀ p v v1 v2, v.fixed ≠ "" → v.fixed ≠ "0" → parse p = v1 → parse F = v2 →
+      vulnerableDebian p v = .ok (decide (debOrd v1 v2 = .lt))
+-/
+
+/-- debian: with a fix `F` (not a sentinel), both versions parsable, **and
+    `Compare` returning on the pair**, reported iff the package is strictly below
+    `F` in dpkg's order. -/
+theorem vulnerable_iff_lt_debian_partial (p : Pkg) (v : Vuln) (v1 v2 : VerDeb.Version)
+    (hF : v.fixed ≠ []) (hF0 : v.fixed ≠ ['0'])
+    (h1 : VerDeb.newVersion p.version = some v1) (h2 : VerDeb.newVersion v.fixed = some v2)
+    (hret : VerDeb.compare v1 v2 ≠ none) :
+    vulnerableDebian p v = .ok (decide (VerDeb.debOrd v1 v2 = .lt)) := by
+  simp only [vulnerableDebian, hF, hF0, if_false, h1, h2]
+  exact debLess_of_returns hret
+
+/-- Without the last hypothesis the statement fails: package `1.00-1`, fixed
+    `1.0-1` — both parse, dpkg considers them equal, the matcher never returns. -/
+theorem vulnerable_iff_lt_debian_counterexample :
+    vulnerableDebian { version := ['1', '.', '0', '0', '-', '1'] } { fixed := ['1', '.', '0', '-', '1'] } = .hang := by
+  decide
+
+theorem vulnerable_iff_lt_ubuntu_partial (p : Pkg) (v : Vuln) (v1 v2 : VerDeb.Version)
+    (hF : v.fixed ≠ [])
+    (h1 : VerDeb.newVersion p.version = some v1) (h2 : VerDeb.newVersion v.fixed = some v2)
+    (hz : v2.toStr ≠ ['0']) (hret : VerDeb.compare v1 v2 ≠ none) :
+    vulnerableUbuntu p v = .ok (decide (VerDeb.debOrd v1 v2 = .lt)) := by
+  simp only [vulnerableUbuntu, hF, if_false, h1, h2, hz]
+  exact debLess_of_returns hret
+
+theorem vulnerable_iff_lt_ubuntu_counterexample :
+    vulnerableUbuntu { version := ['1', '.', '0', '0', '-', '1'] } { fixed := ['1', '.', '0', '-', '1'] } = .hang := by
+  decide
+
+/-- In any case debian never reports a package that is not strictly below the fix. -/
+theorem reported_only_below_debian (p : Pkg) (v : Vuln) (v1 v2 : VerDeb.Version)
+    (hF : v.fixed ≠ []) (hF0 : v.fixed ≠ ['0'])
+    (h1 : VerDeb.newVersion p.version = some v1) (h2 : VerDeb.newVersion v.fixed = some v2)
+    (h : vulnerableDebian p v = .ok true) : VerDeb.debOrd v1 v2 = .lt := by
+  simp only [vulnerableDebian, hF, hF0, if_false, h1, h2] at h
+  simpa using (debLess_ok h).symm
+
+/-- debian: downward closed, as far as the call on the older version returns. -/
+theorem monotone_debian_partial (p p' : Pkg) (v : Vuln) (v1 v1' : VerDeb.Version)
+    (h : vulnerableDebian p v = .ok true)
+    (h1 : VerDeb.newVersion p.version = some v1) (h1' : VerDeb.newVersion p'.version = some v1')
+    (hle : VerDeb.debOrd v1' v1 ≠ .gt) (hret : vulnerableDebian p' v ≠ .hang) :
+    vulnerableDebian p' v = .ok true := by
+  unfold vulnerableDebian at h hret ⊢
+  by_cases hF : v.fixed = []
+  · simp [hF]
+  · by_cases hF0 : v.fixed = ['0']
+    · simp [hF0] at h
+    · simp only [hF, hF0, if_false, h1, h1'] at h hret ⊢
+      cases h2 : VerDeb.newVersion v.fixed with
+      | none => simp [h2] at h
+      | some v2 =>
+        simp only [h2] at h hret ⊢
+        exact debLess_mono h hle hret
+
+theorem monotone_ubuntu_partial (p p' : Pkg) (v : Vuln) (v1 v1' : VerDeb.Version)
+    (h : vulnerableUbuntu p v = .ok true)
+    (h1 : VerDeb.newVersion p.version = some v1) (h1' : VerDeb.newVersion p'.version = some v1')
+    (hle : VerDeb.debOrd v1' v1 ≠ .gt) (hret : vulnerableUbuntu p' v ≠ .hang) :
+    vulnerableUbuntu p' v = .ok true := by
+  unfold vulnerableUbuntu at h hret ⊢
+  by_cases hF : v.fixed = []
+  · simp [hF]
+  · simp only [hF, if_false, h1, h1'] at h hret ⊢
+    cases h2 : VerDeb.newVersion v.fixed with
+    | none => simp [h2] at h
+    | some v2 =>
+      simp only [h2] at h hret ⊢
+      by_cases hz : v2.toStr = ['0']
+      · simp [hz]
+      · simp only [hz, if_false] at h hret ⊢
+        exact debLess_mono h hle hret
+
 /-- The hypotheses above are satisfiable: 1.0-1 is below 1.0-2. -/
 example : vulnerableAws { version := "1.0-1".toList } { fixed := "1.0-2".toList } = .ok true := by decide
 
 example : vulnerableAws { version := "1.0-2".toList } { fixed := "1.0-2".toList } = .ok false := by decide
+
+example : vulnerableDebian { version := "1.0-1".toList } { fixed := "1.0-2".toList } = .ok true := by decide
+
+example : vulnerableUbuntu { version := "1.0-1".toList } { fixed := "0:0".toList } = .ok true := by decide
 
 end ClairModel.Props.C03
